@@ -1326,13 +1326,33 @@ def c18_u5(ctx):
     fns = impl_fns(ctx, RECV)
 
     def track(key):
-        return key[0] == "val" and key[1] == "self.config.transmission_mode"
+        return key[0] == "val" and (key[1] == "self.config.transmission_mode" or key[1].endswith(".closure_requested") or key[1] == "self.metadata")
 
     n = 0
     for f, b, t, d, r in call_sites(fns, ends("RecvTransaction::prepare_finished"), ctx.prog):
         fl = Flow(ctx.prog, ctx.mods, f, track)
         worlds = fl.at_term(b)
         if worlds and all(val_in(dict(w), "self.config.transmission_mode", {"Acknowledged"}) for w in worlds):
+            continue
+        # path-sensitive form: every world that is not known to be acknowledged holds `closure_requested == true`
+        # of the held metadata (read through `if let Some(m)`, a match, a helper, a flag ...)
+        ebv = ExprBuilder(ctx.prog, f, look_through=False)
+
+        def of_metadata(place):
+            if re.search(r"self\.metadata.*@Some\.0.*\.closure_requested$", place):
+                return True
+            mb = re.match(r"^(\w+)(\.\*)?\.closure_requested$", place)
+            if mb:
+                ds = [expr_str(x) for x in ebv.var_defs(mb.group(1))]
+                return bool(ds) and all("self.metadata" in x and "@Some.0" in x for x in ds)
+            return False
+
+        def closure_true(dw):
+            return any(k[0] == "val" and k[1].endswith(".closure_requested") and of_metadata(k[1]) and pos and vals == frozenset([1]) for k, (pos, vals) in dw.items())
+
+        if worlds and all(val_in(dict(w), "self.config.transmission_mode", {"Acknowledged"}) or closure_true(dict(w)) for w in worlds) and f.name not in ("check_finished",):
+            n += 1
+            yield ok("C18-U5", "RecvTransaction::%s:prepare_finished" % f.name, at(f, t["span"]["line"]), "every non-acknowledged path holds metadata@Some.closure_requested == true")
             continue
         if f.name in ("check_finished",):
             continue  # acknowledged-only helper (its callers are checked by C04-F / the mode dispatch)
